@@ -32,6 +32,17 @@ dates = st.tuples(st.one_of(st.integers(rd.MAR1_ORD, rd.LAST_ORD), st.integers(r
 texts = st.one_of(st.sampled_from(['', '2', '-1', '10', '9', 'a', 'A', 'b', 'B', 'ab', 'aB', 'Ab', 'TRUE', 'FALSE', ' ', '!', 'z', 'é', 'É', '0']),
                   st.text(st.sampled_from('abAB12 -!é'), max_size=4), st.text(max_size=5))
 scalar = st.one_of(numbers, numbers, dates, texts, texts, st.booleans(), st.none())
+
+
+@st.composite
+def same_day_pair(draw):
+    """a date-time and a number that lies in the same day (its whole serial, the next one, or a fraction in between)"""
+    o = draw(st.integers(rd.MAR1_ORD, 750000))
+    ms = draw(st.one_of(st.integers(1, 86399999), st.just(0), st.just(43200000)))
+    d = _dt((o, ms))
+    k = o - rd.EPOCH_ORD
+    n = draw(st.sampled_from([k, k + 1, k + 0.5, k + 0.25, k - 1, float(k)]))
+    return (d, n) if draw(st.booleans()) else (n, d)
 nonblank = st.one_of(numbers, numbers, dates, texts, texts, st.booleans())
 
 
@@ -174,7 +185,8 @@ how_s = st.sampled_from(['var', 'var', 'lit', 'cell'])
 PAIRS = ['date-date', 'date-logical', 'date-number', 'date-text', 'logical-logical', 'logical-number', 'logical-text', 'number-number', 'number-text', 'text-text', 'blank-number', 'blank-text', 'blank-logical', 'blank-date']
 
 LAWS = [
-    Law('pairs', check_pair, strategy=st.fixed_dictionaries({'a': scalar, 'b': scalar, 'how': how_s}), key=pair_key, classes=pair_classes, nontrivial=nontrivial_pair,
+    Law('pairs', check_pair, strategy=st.one_of(st.fixed_dictionaries({'a': scalar, 'b': scalar, 'how': how_s}), st.fixed_dictionaries({'a': scalar, 'b': scalar, 'how': how_s}),
+                                                st.tuples(same_day_pair(), how_s).map(lambda t: {'a': t[0][0], 'b': t[0][1], 'how': t[1]})), key=pair_key, classes=pair_classes, nontrivial=nontrivial_pair,
         required=tuple(PAIRS) + ('how:lit', 'how:cell'), quick=6000, thorough=300000, shards=(8, 16),
         rule='ordered pairs of scalars; one formula evaluates the six operators both ways round: trichotomy, derived operators, converse, and direction against the reference order (number|date by value/serial < text < logical, blank as 0 / "" / FALSE); '
              'non-trivial = operands of different classes, or unequal same-class operands that are not both small positive integers'),
